@@ -470,3 +470,21 @@ func init() {
 		return nil
 	})
 }
+
+func init() {
+	// unique.Make[T]: canonical handle per distinct (concrete) value; Handle[T] is struct{ value *T }.
+	reg("unique.Make[...]", func(in *Exec, _ *frame, a []value) value {
+		key := "unique:" + describe(a[0])
+		if strings.Contains(key, "<sym") {
+			in.inconclusive("unique.Make of a symbolic value")
+		}
+		if h, ok := in.ghost[key]; ok {
+			return h
+		}
+		cell := new(value)
+		*cell = copyVal(a[0])
+		h := structure{cell}
+		in.ghost[key] = h
+		return h
+	})
+}
